@@ -1,4 +1,4 @@
 (* Extraction of the object/ownership model (C20). ExtrOcamlBasic only. *)
 From Coq Require Import ExtrOcamlBasic.
 From PS Require Import ObjResource ObjModel.
-Extraction "objmodel.ml" step run world0 cfg_orig cfg_fixed fault_at no_fault built get claim get_obj balancedb replay.
+Extraction "objmodel.ml" step run world0 cfg_orig cfg_fixed fault_at no_fault built get claim get_obj balancedb replay find_key tbl_ok.
